@@ -500,6 +500,11 @@ async def exec_step(env, ctx, step):
     env.log(ctx.name, 'start', op, sid)
     env.sess.stats['op:' + op] += 1
     turn = env.sess.n
+    state = mark = None
+    if op in YIELDING_OPS and env.sess.stack:
+        state = env.sess.stack[-1]
+        mark = state.seq
+        called_at = state.loop.time
     try:
         result = await HANDLERS[op](env, ctx, step)
     except BaseException as exc:  # noqa: B902
@@ -516,6 +521,25 @@ async def exec_step(env, ctx, step):
                 '%s: %s (step %s, %r) completed within the activation in which it was issued, '
                 'at %r' % (ctx.name, op, sid, {k: v for k, v in step.items()
                                                if k not in ('op', 'id', 'body')}, env.sess.now()))
+        elif state is not None and env.sess.stack[-1] is state and len(state.by_key) < 3000:
+            # ... and after everything that was runnable when it was issued has had its turn:
+            # whatever was queued for this time before the call comes first
+            loop = state.loop
+            if loop.time == called_at:
+                me = loop.activity
+                for rec in state.by_due.get(loop.time, ()):
+                    if rec[2] is None or not rec[0] or rec[0] > mark or rec[2] is me:
+                        continue
+                    if rec[3] is not None and rec[3]._revoked:
+                        continue
+                    if rec[1] != loop.time:
+                        continue
+                    env.sess.violation(
+                        'c20:resumed-ahead-of-runnable:' + op,
+                        '%s: %s (step %s) completed at %r before %s, which was runnable when '
+                        'the operation was issued, had its turn' % (
+                            ctx.name, op, sid, loop.time, env.sess.label_of(rec[2])))
+                    break
     env.log(ctx.name, 'end', op, sid, result)
 
 
